@@ -105,6 +105,71 @@ Definition dict_view (s : dstate) (id : N) : option entry :=
   end.
 Definition dict_listed (s : dstate) (id : N) : bool := amem N.eqb (d_meta s) id.
 
+(* ---- DictStorage over copy-on-access mappings (shelve, the persistence the
+   module docstring advertises): every `db[id]` hands out a fresh copy, only
+   `db[id] = value` persists.  The maps therefore hold values, not references.
+   `ab` = the method assigns the modified copy back (set_timestamp and
+   increment_attempts always did; set_recipients_delivered does since the d35
+   fix).  ab = false is the pre-fix shape: mutate the copy and drop it. *)
+Record cdstate := mkCDict { cd_env : amap N envelope; cd_meta : amap N dmeta }.
+Definition cdict_init : cdstate := mkCDict [] [].
+
+Fixpoint cdict_pick (env_db : amap N envelope) (cands : list N) : option N :=
+  match cands with
+  | [] => None
+  | c :: cs => if amem N.eqb env_db c then cdict_pick env_db cs else Some c
+  end.
+
+Definition cdict_step (ab : bool) (s : cdstate) (o : op) : cdstate * res :=
+  match o with
+  | OWrite e ts cands _ =>
+      match cdict_pick (cd_env s) cands with
+      | Some id => (mkCDict (aset N.eqb (cd_env s) id e) (aset N.eqb (cd_meta s) id (mkDMeta ts 0)), RId id)
+      | None => (s, RNoId)
+      end
+  | OSetTs id ts _ =>
+      match alookup N.eqb (cd_meta s) id with
+      | Some m => (if ab then mkCDict (cd_env s) (aset N.eqb (cd_meta s) id (mkDMeta ts (dm_att m))) else s, RUnit)
+      | None => (s, RMissing)
+      end
+  | OIncr id _ =>
+      match alookup N.eqb (cd_meta s) id with
+      | Some m => (if ab then mkCDict (cd_env s) (aset N.eqb (cd_meta s) id (mkDMeta (dm_ts m) (dm_att m + 1))) else s,
+                   RAtt (dm_att m + 1))
+      | None => (s, RMissing)
+      end
+  | ODeliv id idxs _ =>
+      (* envelope = self.env_db[id]; self._remove_delivered_rcpts(envelope, idxs); self.env_db[id] = envelope:
+         an IndexError leaves before the assignment, the shortened copy is dropped *)
+      match alookup N.eqb (cd_env s) id with
+      | Some e =>
+          let (l, ok) := round_p idxs (e_rcpts e) in
+          if ok then (if ab then mkCDict (aset N.eqb (cd_env s) id (with_rcpts e l)) (cd_meta s) else s, RUnit)
+          else (s, RIndexErr)
+      | None => (s, RMissing)
+      end
+  | OLoad _ => (s, RLoad (map (fun p => (dm_ts (snd p), fst p)) (cd_meta s)))
+  | OGet id =>
+      match alookup N.eqb (cd_meta s) id, alookup N.eqb (cd_env s) id with
+      | Some m, Some e => (s, RGot e (dm_att m))
+      | _, _ => (s, RMissing)
+      end
+  | ORemove id => (mkCDict (adel N.eqb (cd_env s) id) (adel N.eqb (cd_meta s) id), RUnit)
+  end.
+
+Fixpoint cdict_run (ab : bool) (s : cdstate) (ops : list op) : cdstate * list res :=
+  match ops with
+  | [] => (s, [])
+  | o :: ops' => let (s1, x) := cdict_step ab s o in
+                 let (s2, xs) := cdict_run ab s1 ops' in (s2, x :: xs)
+  end.
+
+Definition cdict_view (s : cdstate) (id : N) : option entry :=
+  match alookup N.eqb (cd_meta s) id, alookup N.eqb (cd_env s) id with
+  | Some m, Some e => Some (mkEntry e (dm_ts m) (dm_att m))
+  | _, _ => None
+  end.
+
 (* ================================================================= Redis *)
 Record rhash := mkHash { h_env : option envelope; h_ts : option N;
                          h_att : option N; h_deliv : option (list N) }.
@@ -251,12 +316,15 @@ Fixpoint redis_run (s : rstate) (ops : list op) : rstate * list res :=
 
 (* operation sequences with wait() calls (the queue's _wait_store greenlet
    consuming announcements) anywhere in between *)
-Inductive ritem := RIop (o : op) | RIwait.
+(* RIorphan: a writer that died between the HSETNX of the envelope and the
+   pipeline with timestamp/attempts/RPUSH - a hash with the envelope field only *)
+Inductive ritem := RIop (o : op) | RIwait | RIorphan (id : N) (e : envelope).
 
 Definition ritem_step (s : rstate) (it : ritem) : rstate * res :=
   match it with
   | RIop o => redis_step s o
   | RIwait => run rexec redis_wait s
+  | RIorphan id e => (fst (rexec s (QHsetnxEnv id e)), RUnit)
   end.
 
 Fixpoint redis_run_items (s : rstate) (its : list ritem) : rstate * list res :=
@@ -271,6 +339,7 @@ Fixpoint ritem_ops (its : list ritem) : list op :=
   | [] => []
   | RIop o :: its' => o :: ritem_ops its'
   | RIwait :: its' => ritem_ops its'
+  | RIorphan _ _ :: its' => ritem_ops its'
   end.
 
 Definition redis_view (s : rstate) (id : N) : option entry :=
